@@ -163,8 +163,7 @@ Ref World::apply_exprs(const Op& op)
    case OP_expr_list_push_back: {
       if (xlists.empty()) { Op o; o.code = OP_make_expr_list; nested(o); }
       impl::Expr_list* l = xlists.pick(op.a[0]);
-      const ipr::Expr& x = E(op.a[1]);
-      if (nref(x) == nref(*l)) return nullptr;            // a list is not made a member of itself
+      const ipr::Expr& x = Eo(op.a[1], nref(*l));         // members are older than their container: the graph stays acyclic
       touching = l;
       SUT(l->push_back(&x));
       if (Rec* rc = rec(nref(*l))) rc->exp.append("elements", nref(x));
@@ -351,6 +350,7 @@ Ref World::apply_exprs(const Op& op)
       note_region(n->inputs.parms, &pr, nref(*n));
       HomoModel h; h.kind = H_params; h.scope = &n->inputs.parms.scope; h.region = &n->inputs.parms; h.owner_node = &n->inputs; h.level = int64_t(level);
       homos.push_back(h);
+      print_parent[nref(static_cast<const ipr::Parameter_list&>(n->inputs))] = nref(*n);
       plists.add(&n->inputs);
       mappings.add(n);
       add_typed_handle(*this, n);
